@@ -274,6 +274,120 @@ fn derived(base: u64, code: u64) -> u64 {
     DERIVED + base * 1000 + code
 }
 
+/// LENGTH near-misses of a secret: index `DERIVED2 + base * D2_BASE + kind * D2_KIND + n` = `derive_len(real value
+/// base, kind, n)`: the secret extended / truncated / overwritten by `n` characters (see `derive_len`).
+const DERIVED2: u64 = 1_000_000_000;
+const D2_BASE: u64 = 100_000_000;
+const D2_KIND: u64 = 2_000_000;
+
+fn derived2(base: u64, kind: u64, n: usize) -> u64 {
+    assert!(kind < D2_BASE / D2_KIND && (n as u64) < D2_KIND);
+    DERIVED2 + base * D2_BASE + kind * D2_KIND + n as u64
+}
+
+/// The index of the real value a near-miss index is derived from.
+fn derived_base(i: u64) -> u64 {
+    if i >= DERIVED2 { (i - DERIVED2) / D2_BASE } else { (i - DERIVED) / 1000 }
+}
+
+/// Filler kinds of an extension (`kind % 10`): 0 = the same hex digit `0` n times, 1 = the secret's own adjacent
+/// character (its last one at the back, its first one at the front) n times, 2 = the secret itself repeated
+/// cyclically (back: t+t+t…; front: …t+t, ending exactly before the secret), 3 = pseudo-random lower-case hex digits
+/// (all different from their neighbours' pattern), 4 = `é` n times (a two-byte character: 2n bytes).
+const D2_FILLERS: u64 = 5;
+/// Extension at the back (kinds 0..5), at the front (10..15); truncation by n at the back (20: the proper prefix of
+/// length len-n) / at the front (21: the proper suffix); the last (22) / first (23) n characters replaced by their
+/// hex neighbours (same length); rotated left by n (24: truncated at the front, extended at the back).
+const D2_BACK: u64 = 0;
+const D2_FRONT: u64 = 10;
+const D2_CUT_BACK: u64 = 20;
+const D2_CUT_FRONT: u64 = 21;
+const D2_FLIP_BACK: u64 = 22;
+const D2_FLIP_FRONT: u64 = 23;
+const D2_ROTATE: u64 = 24;
+
+fn d2_kind_name(kind: u64) -> String {
+    let fill = ["0", "adjacent-char", "own-cycle", "random-hex", "two-byte-char"];
+    match kind {
+        0..=4 => format!("extend-back:{}", fill[kind as usize]),
+        10..=14 => format!("extend-front:{}", fill[(kind - 10) as usize]),
+        D2_CUT_BACK => "truncate-back".into(),
+        D2_CUT_FRONT => "truncate-front".into(),
+        D2_FLIP_BACK => "overwrite-back".into(),
+        D2_FLIP_FRONT => "overwrite-front".into(),
+        D2_ROTATE => "rotate".into(),
+        _ => "other".into(),
+    }
+}
+
+fn derive_len(t: &str, kind: u64, n: usize) -> String {
+    let cs: Vec<char> = t.chars().collect();
+    let len = cs.len();
+    let flip = |c: char| -> char {
+        match c.to_digit(16) {
+            Some(d) if !c.is_ascii_uppercase() => char::from_digit(d ^ 1, 16).unwrap(),
+            _ => '0',
+        }
+    };
+    let fill = |f: u64, front: bool| -> String {
+        match f {
+            0 => "0".repeat(n),
+            1 => {
+                let c = if front { cs.first() } else { cs.last() };
+                c.copied().unwrap_or('0').to_string().repeat(n)
+            }
+            2 if len > 0 => {
+                if front {
+                    // …t+t: the last n characters of t repeated, so that filler + t is periodic
+                    (0..n).map(|i| cs[(len - (n % len) + i) % len]).collect()
+                } else {
+                    (0..n).map(|i| cs[i % len]).collect()
+                }
+            }
+            3 => {
+                let mut rng = Rng::new(0x1E57_0000 + n as u64 * 31 + front as u64);
+                (0..n).map(|_| char::from_digit(rng.below(16) as u32, 16).unwrap()).collect()
+            }
+            4 => "é".repeat(n),
+            _ => "f".repeat(n),
+        }
+    };
+    let r: String = match kind {
+        0..=9 => format!("{}{}", t, fill(kind, false)),
+        10..=19 => format!("{}{}", fill(kind - 10, true), t),
+        D2_CUT_BACK if n <= len => cs[..len - n].iter().collect(),
+        D2_CUT_FRONT if n <= len => cs[n..].iter().collect(),
+        D2_FLIP_BACK if n <= len => cs.iter().enumerate().map(|(i, c)| if i >= len - n { flip(*c) } else { *c }).collect(),
+        D2_FLIP_FRONT if n <= len => cs.iter().enumerate().map(|(i, c)| if i < n { flip(*c) } else { *c }).collect(),
+        D2_ROTATE if len > 0 => (0..len).map(|i| cs[(i + n) % len]).collect(),
+        _ => format!("{}f", t),
+    };
+    if r == t { format!("{}#", t) } else { r }
+}
+
+/// The numbers of characters by which secrets are extended: every n in 1..=300 (thorough 1..=1100) and, for every
+/// P in {512, 1024, …, 65536} (and 2^17, 2^20), the n within 2 of P and of P - len (total length within 2 of P).
+fn len_steps(secret_len: usize, thorough: bool) -> Vec<usize> {
+    let mut v: Vec<usize> = (1..=if thorough { 1100 } else { 300 }).collect();
+    for p in [512usize, 1024, 2048, 4096, 8192, 16384, 32768, 65536] {
+        for d in 0..=4usize {
+            v.push(p + d - 2);
+            v.push(p - secret_len + d - 2);
+        }
+    }
+    for p in [1usize << 17, 1 << 20] {
+        for d in 0..=4usize {
+            if thorough || d == 2 {
+                v.push(p + d - 2);
+                v.push(p - secret_len + d - 2);
+            }
+        }
+    }
+    v.sort();
+    v.dedup();
+    v
+}
+
 fn err_name(e: &AuthError) -> &'static str {
     match e {
         AuthError::GenericError => "GenericError",
@@ -342,6 +456,10 @@ impl Runner {
             900 => String::new(),
             901 => "00000000-0000-4000-8000-000000000000".into(),
             902 => "nobody".into(),
+            i if i >= DERIVED2 => match self.uids.get(derived_base(i) as usize) {
+                Some(u) => derive_len(u, (i - DERIVED2) % D2_BASE / D2_KIND, ((i - DERIVED2) % D2_KIND) as usize),
+                None => format!("unknown-uid-{}", i),
+            },
             i if i >= DERIVED => match self.uids.get(((i - DERIVED) / 1000) as usize) {
                 Some(u) => derive_secret(u, (i - DERIVED) % 1000),
                 None => format!("unknown-uid-{}", i),
@@ -356,6 +474,10 @@ impl Runner {
             901 => "0".repeat(64),
             902 => "deadbeef".into(),
             903 => self.toks.first().map(|t| t.to_uppercase()).unwrap_or_else(|| "ABC".into()),
+            i if i >= DERIVED2 => match self.toks.get(derived_base(i) as usize) {
+                Some(t) => derive_len(t, (i - DERIVED2) % D2_BASE / D2_KIND, ((i - DERIVED2) % D2_KIND) as usize),
+                None => format!("unknown-token-{}", i),
+            },
             i if i >= DERIVED => match self.toks.get(((i - DERIVED) / 1000) as usize) {
                 Some(t) => derive_secret(t, (i - DERIVED) % 1000),
                 None => format!("unknown-token-{}", i),
@@ -578,10 +700,10 @@ impl Runner {
             AOp::RemoveUser(u) | AOp::Verify(u, _) | AOp::Exists(u) | AOp::CreateSession(u) | AOp::CreateSessionLifetime(u, _) | AOp::InvalidateUser(u)
                 if *u >= DERIVED =>
             {
-                "[near-miss-uid]"
+                if *u >= DERIVED2 { "[near-miss-len-uid]" } else { "[near-miss-uid]" }
             }
             AOp::Refresh(t) | AOp::Invalidate(t) | AOp::GetUid(t) | AOp::AuthRoute(Some(t), _) => {
-                if *t >= DERIVED { "[near-miss]" } else if (*t as usize) < self.toks.len() { "[issued]" } else { "[unknown]" }
+                if *t >= DERIVED2 { "[near-miss-len]" } else if *t >= DERIVED { "[near-miss]" } else if (*t as usize) < self.toks.len() { "[issued]" } else { "[unknown]" }
             }
             AOp::AuthRoute(None, _) => "[no-cookie]",
             _ => "",
@@ -827,7 +949,14 @@ fn gen_seq(out: &mut Out, rng: &mut Rng, cfg: &Cfg, init: Vec<(User, Pw)>, len: 
         sh.ntok = r.toks.len() as u64; // tokens really issued so far
         let pick_uid = |rng: &mut Rng, sh: &Shadow| -> u64 {
             if rng.chance(1, 12) {
-                if rng.chance(1, 2) { 900 + rng.below(3) } else { derived(rng.below(sh.users.len() as u64), gen_code(rng, 36, true)) }
+                match rng.below(6) {
+                    0..=2 => 900 + rng.below(3),
+                    3 | 4 => derived(rng.below(sh.users.len() as u64), gen_code(rng, 36, true)),
+                    _ => {
+                        let b = rng.below(sh.users.len() as u64);
+                        gen_len_index(rng, b, 36)
+                    }
+                }
             } else {
                 rng.below(sh.users.len() as u64)
             }
@@ -835,7 +964,14 @@ fn gen_seq(out: &mut Out, rng: &mut Rng, cfg: &Cfg, init: Vec<(User, Pw)>, len: 
         let pick_tok = |rng: &mut Rng, sh: &Shadow| -> u64 {
             if sh.ntok == 0 || rng.chance(1, 10) {
                 // unknown token: a fixed one, or a near-miss of a token that was really issued
-                if sh.ntok == 0 || rng.chance(1, 2) { 900 + rng.below(4) } else { derived(rng.below(sh.ntok), gen_code(rng, 64, true)) }
+                if sh.ntok == 0 || rng.chance(1, 2) {
+                    900 + rng.below(4)
+                } else if rng.chance(2, 3) {
+                    derived(rng.below(sh.ntok), gen_code(rng, 64, true))
+                } else {
+                    let b = rng.below(sh.ntok);
+                    gen_len_index(rng, b, 64)
+                }
             } else if rng.chance(1, 2) {
                 sh.ntok - 1 - rng.below(sh.ntok.min(2))
             } else {
@@ -870,7 +1006,7 @@ fn gen_seq(out: &mut Out, rng: &mut Rng, cfg: &Cfg, init: Vec<(User, Pw)>, len: 
                 let u = pick_uid(rng, &sh);
                 if u >= 900 {
                     // unknown uid (no hashing happens): the password of the user it is derived from, or any
-                    let p = if u >= DERIVED { sh.users[((u - DERIVED) / 1000) as usize].clone() } else { Pw::pool(rng.below(4)) };
+                    let p = if u >= DERIVED { sh.users[derived_base(u) as usize].clone() } else { Pw::pool(rng.below(4)) };
                     AOp::Verify(u, p)
                 } else if sh.verifies < max_verify {
                     sh.verifies += 1;
@@ -968,6 +1104,27 @@ fn gen_code(rng: &mut Rng, n: u64, plain: bool) -> u64 {
         };
         if !plain || derived_plain(c) {
             return c;
+        }
+    }
+}
+
+/// A random length near-miss (see `derive_len`) of the real value `base` whose length is `secret_len`.
+fn gen_len_index(rng: &mut Rng, base: u64, secret_len: usize) -> u64 {
+    match rng.below(4) {
+        0 => {
+            let kind = *rng.pick(&[D2_CUT_BACK, D2_CUT_FRONT, D2_FLIP_BACK, D2_FLIP_FRONT, D2_ROTATE]);
+            let n = rng.range(1, secret_len as u64 - if kind == D2_ROTATE { 1 } else { 0 }) as usize;
+            derived2(base, kind, n)
+        }
+        _ => {
+            let side = if rng.chance(1, 2) { D2_BACK } else { D2_FRONT };
+            let steps = len_steps(secret_len, false);
+            let n = match rng.below(3) {
+                0 => *rng.pick(&steps),
+                1 => 256 * rng.range(1, 16) as usize,
+                _ => rng.range(1, 70_000) as usize,
+            };
+            derived2(base, side + rng.below(D2_FILLERS), n)
         }
     }
 }
@@ -1224,6 +1381,107 @@ fn secret_sweeps(out: &mut Out, pool: &mut Pool, thorough: bool) {
     }
 }
 
+fn n_bucket(n: usize) -> &'static str {
+    match n {
+        0..=63 => "1..63",
+        64..=255 => "64..255",
+        256..=300 => "256..300",
+        301..=1100 => "301..1100",
+        1101..=4999 => "1101..4999",
+        5000..=69_999 => "5000..69999",
+        _ => "70000..",
+    }
+}
+
+/// LENGTH near-misses of real tokens / uids (classes TL / UL): the secret extended by n characters at the back and at
+/// the front with every filler kind, truncated by n at either end, its last / first n characters overwritten, rotated
+/// by n -- for every n of `len_steps` (extensions) and every 1 <= n <= length (the others), on every operation that
+/// takes the secret, in sequences of `chunk` operations on pool users (no hashing).
+fn length_sweeps(out: &mut Out, pool: &mut Pool, thorough: bool) {
+    let variants = |len: usize| -> Vec<(u64, usize)> {
+        let mut v = Vec::new();
+        for side in [D2_BACK, D2_FRONT] {
+            for f in 0..D2_FILLERS {
+                for n in len_steps(len, thorough) {
+                    // the very long ones with the one-byte fillers only (a 2 MiB cookie adds nothing)
+                    if n < 100_000 || f < 3 {
+                        v.push((side + f, n));
+                    }
+                }
+            }
+        }
+        for kind in [D2_CUT_BACK, D2_CUT_FRONT, D2_FLIP_BACK, D2_FLIP_FRONT] {
+            for n in 1..=len {
+                v.push((kind, n));
+            }
+        }
+        for n in 1..len {
+            v.push((D2_ROTATE, n));
+        }
+        v
+    };
+    let base_cfg = Cfg { pepper: 0, dl: 3600, rl: 3600, now0: 5000 };
+    let chunk = 40;
+    let note = |out: &mut Out, class: &str, part: &[(u64, usize)]| {
+        for (kind, n) in part {
+            out.count(&format!("{}:{}", class, d2_kind_name(*kind)));
+            if *kind < 20 {
+                out.count(&format!("{}:extended-by:{}", class, n_bucket(*n)));
+            }
+        }
+    };
+    // tokens
+    let vs = variants(64);
+    for kind in 0..4u64 {
+        for (ci, part) in vs.chunks(chunk).enumerate() {
+            // alternate the token the near-misses are derived from: 0 = default lifetime, 1 = lifetime 50
+            let b = ci as u64 % 2;
+            let mut ops = vec![AOp::CreateSession(0), AOp::CreateSessionLifetime(1, 50)];
+            for (k, n) in part {
+                let t = derived2(b, *k, *n);
+                ops.push(match kind {
+                    0 => AOp::GetUid(t),
+                    1 => AOp::AuthRoute(Some(t), (*n as u64) % 3),
+                    2 => AOp::Refresh(t),
+                    _ => AOp::Invalidate(t),
+                });
+            }
+            // the real sessions are untouched: still live, then the short one expires on time
+            ops.extend([AOp::GetUid(0), AOp::AuthRoute(Some(1), 0), AOp::Tick(50), AOp::GetUid(1), AOp::Refresh(derived2(1, D2_BACK, 256))]);
+            let pepper = ci as u64 % 2;
+            let cfg = Cfg { pepper, ..base_cfg.clone() };
+            let init = pool.get(pepper, 3);
+            note(out, "TL", part);
+            emit(out, &cfg, init, &ops, "TL:token-length-near-miss");
+        }
+    }
+    // uids
+    let vs = variants(36);
+    for kind in 0..6u64 {
+        for (ci, part) in vs.chunks(chunk).enumerate() {
+            let base = ci as u64 % 3;
+            let pepper = ci as u64 % 2;
+            let init = pool.get(pepper, 3);
+            let mut ops = vec![AOp::CreateSession(base)];
+            for (k, n) in part {
+                let u = derived2(base, *k, *n);
+                ops.push(match kind {
+                    0 => AOp::Exists(u),
+                    1 => AOp::Verify(u, init[base as usize].1.clone()),
+                    2 => AOp::RemoveUser(u),
+                    3 => AOp::CreateSession(u),
+                    4 => AOp::CreateSessionLifetime(u, 10),
+                    _ => AOp::InvalidateUser(u),
+                });
+            }
+            ops.extend([AOp::GetUid(0), AOp::Exists(base)]);
+            let cfg = Cfg { pepper, ..base_cfg.clone() };
+            note(out, "UL", part);
+            emit(out, &cfg, init, &ops, "UL:uid-length-near-miss");
+        }
+    }
+}
+
 pub fn gen(out: &mut Out, thorough: bool, seed: u64) {
     let mut rng = Rng::new(seed ^ 0xC17);
     let mut pool = Pool::new();
@@ -1284,6 +1542,8 @@ pub fn gen(out: &mut Out, thorough: bool, seed: u64) {
     }
     // classes T / U: near-misses of real tokens and uids
     secret_sweeps(out, &mut pool, thorough);
+    // classes TL / UL: the same secrets extended / truncated / overwritten by n characters
+    length_sweeps(out, &mut pool, thorough);
     // class A: everything through the provider, users created by create_user (Argon2 on every create / verify)
     let n_a = if thorough { 4000 } else { 400 };
     for _ in 0..n_a {
